@@ -929,7 +929,9 @@ struct VecDriver {
                             lo = static_cast<long>(sz) + 1; // last beyond end
                         } else if (st.flt == 2) {
                             if (f == l) {
-                                lo = static_cast<long>(sz) + 1;
+                                // an EMPTY range that lies outside [begin, end] (a stale iterator used twice)
+                                fo = static_cast<long>(sz) + 1 + static_cast<long>(st.k[2] % 2);
+                                lo = fo;
                             } else {
                                 fo = static_cast<long>(l); // reversed pair
                                 lo = static_cast<long>(f);
@@ -1168,6 +1170,21 @@ struct VecDriver {
                     int const val = static_cast<int>(st.v[0]);
                     ctx.log.kv("v", val);
                     size_t ret = 0;
+                    if constexpr (std::is_same_v<T, int>) {
+                        // the value argument of the free erase has its own type: it is compared with every element as
+                        // it is (std::erase), never converted to the element type first
+                        if (op == "erase_value" && st.k[0] % 3 == 0) {
+                            bool const wide = st.k[1] % 2 == 0;
+                            ctx.log.kv("hetero", wide ? 1 : 2);
+                            bool ok2 = call(a, false, false, [&] {
+                                ret = wide ? etl::erase(v, static_cast<long long>(val) + (1LL << 32)) : etl::erase(v, static_cast<double>(val) + 0.5);
+                            });
+                            if (ok2 && ret != 0) {
+                                ctx.violation("C01", "diff:returned-count", "erase(v, value of another type) removed elements that do not compare equal to the value");
+                            }
+                            return;
+                        }
+                    }
                     bool ok    = call(a, false, false, [&] {
                         if (op == "erase_value") {
                             ret = etl::erase(v, mk(val));
